@@ -401,9 +401,23 @@ impl OcflStore for FsOcflStore {
             version_str, inventory.id
         );
 
+        // The root inventory files are overwritten in place, so their current contents are kept
+        // in case the new version must be rolled back
+        let root_inventory_path = paths::inventory_path(&object_root);
+        let root_sidecar_path =
+            paths::sidecar_path(&object_root, existing_inventory.digest_algorithm);
+        let root_inventory_bytes = fs::read(&root_inventory_path)?;
+        let root_sidecar_bytes = fs::read(&root_sidecar_path)?;
+
         fs::rename(version_path, &destination)?;
 
         if let Err(e) = self.copy_inventory_files(inventory, &destination, &object_root) {
+            if let Err(e) = fs::write(&root_inventory_path, &root_inventory_bytes)
+                .and_then(|_| fs::write(&root_sidecar_path, &root_sidecar_bytes))
+            {
+                error!("Failed to restore the root inventory of object {} at {}: {}. Manual intervention may be required.",
+                       inventory.id, object_root.to_string_lossy(), e);
+            }
             if let Err(e) = fs::rename(&destination, version_path) {
                 error!("Failed to rollback version {} of object {} at {}: {}. Manual intervention may be required.",
                        version_str, inventory.id, version_path.to_string_lossy(), e);
